@@ -329,54 +329,4 @@ pub(crate) mod verif_proofs {
         kani::cover!(r.is_ok(), "accepted");
         std::mem::forget(r);
     }
-
-    // ---- C01/C12: Framework::new on validated machines (BOUNDED: one or two machines with one state
-    // and no transitions; the loops of `new` are not within Verus' reach, see DESIGN 9)
-    fn stub_format(_a: std::fmt::Arguments<'_>) -> String {
-        String::new()
-    }
-
-    macro_rules! k_new_machines_n {
-        ($name:ident, $n:expr) => {
-            #[kani::proof]
-            #[kani::unwind(16)]
-            #[kani::stub(alloc::fmt::format, stub_format)]
-            pub(crate) fn $name() {
-                let mut ms: Vec<Machine> = Vec::new();
-                let mut k = 0;
-                while k < $n {
-                    let mut st = crate::state::verif_proofs::mk_state(None, 0, None);
-                    if k == 1 {
-                        st.action = Some(Action::UpdateTimer { replace: false, duration: const_dist(), limit: None });
-                    }
-                    ms.push(Machine {
-                        allowed_padding_packets: kani::any(),
-                        max_padding_frac: 0.5,
-                        allowed_blocked_microsec: kani::any(),
-                        max_blocking_frac: 0.0,
-                        states: vec![st],
-                    });
-                    k += 1;
-                }
-                let r = Framework::new(ms, 0.25, 1.0, VInst(kani::any()), NoRng);
-                assert!(r.is_ok(), "[C12.new] accepted machines and fractions in [0,1] must give a framework");
-                if let Ok(f) = &r {
-                    assert!(f.runtime.len() == $n && f.actions.len() == $n, "[C01.new]");
-                    let mut i = 0;
-                    while i < $n {
-                        assert!(f.actions[i].is_none() && f.runtime[i].current_state == 0, "[C01.new]");
-                        assert!(f.runtime[i].counter_a == 0 && f.runtime[i].counter_b == 0
-                            && f.runtime[i].counter_zeroed_once == (false, false), "[C01.new]");
-                        assert!(f.runtime[i].state_limit == if i == 1 { u64::MAX } else { 0 }, "[C01.new]");
-                        i += 1;
-                    }
-                    assert!(f.signal_pending.is_none() && !f.blocking_active
-                        && f.normal_sent_packets == 0 && f.padding_sent_packets == 0, "[C01.new]");
-                }
-                std::mem::forget(r);
-            }
-        };
-    }
-    k_new_machines_n!(k_new_machines_1, 1);
-    k_new_machines_n!(k_new_machines_2, 2);
 }
